@@ -200,6 +200,79 @@ func checkOffsetsAndLengths(p *Program, r *Result, isSink func(ssa.CallInstructi
 			// length = Size() - start, with only the group's writer in between
 			checkDifference(p, r, fn, g.length.Val, g.start.Val, "SummaryOffset.GroupLength("+op+")", []string{wr}, g.length, isSink)
 		}
+		// groups built by a constructor helper: h(op, start) { return &SummaryOffset{op, start, Size() - start} }
+		for _, ci := range callsIn(fn, func(ssa.CallInstruction) bool { return true }) {
+			h := ci.Common().StaticCallee()
+			if h == nil || h.Blocks == nil || !p.isRepoFunc(h) || h == fn {
+				continue
+			}
+			opIdx, startIdx, lenOK := -1, -1, false
+			var lenStart ssa.Value
+			for _, in := range instrsOf(h) {
+				st, ok := in.(*ssa.Store)
+				if !ok {
+					continue
+				}
+				tn, fld, _, ok := fieldRef(st.Addr)
+				if !ok || tn != "SummaryOffset" {
+					continue
+				}
+				pidx := func(v ssa.Value) int {
+					for i, prm := range h.Params {
+						if stripConv(v) == ssa.Value(prm) {
+							return i
+						}
+					}
+					return -1
+				}
+				switch fld {
+				case "GroupOpcode":
+					opIdx = pidx(st.Val)
+				case "GroupStart":
+					startIdx = pidx(st.Val)
+				case "GroupLength":
+					if b, ok := stripConv(st.Val).(*ssa.BinOp); ok && b.Op == token.SUB && sizeCallOf(b.X) != nil {
+						lenOK = true
+						lenStart = stripConv(b.Y)
+					}
+				}
+			}
+			if opIdx < 0 && startIdx < 0 && !lenOK {
+				continue
+			}
+			hname := funcName(h)
+			args := ci.Common().Args
+			op := ""
+			if opIdx >= 0 && opIdx < len(args) {
+				if c, ok := args[opIdx].(*ssa.Const); ok && c.Value != nil {
+					op = opName[c.Value.String()]
+				}
+			}
+			order = append(order, ci.Value())
+			if op == "" || startIdx < 0 || !lenOK || lenStart != ssa.Value(h.Params[startIdx]) {
+				r.violated("C05.b", funcName(fn), "SummaryOffset built by "+hname, p.pos(ci.Pos()),
+					"the helper does not build the group from (constant opcode, start, current position - start)")
+				continue
+			}
+			sinkInHelper := false
+			for _, c2 := range callsIn(h, func(c2 ssa.CallInstruction) bool { ok, _ := isSink(c2); return ok }) {
+				_ = c2
+				sinkInHelper = true
+			}
+			if sinkInHelper {
+				r.violated("C05.c", funcName(fn), "SummaryOffset.GroupLength("+op+")", p.pos(ci.Pos()), "the helper that computes the group length also writes to the sink")
+				continue
+			}
+			wr := groupWriter[op]
+			startVal := args[startIdx]
+			var ciInstr ssa.Instruction = ci
+			checkSnapshot(p, r, fn, startVal, "SummaryOffset.GroupStart("+op+")", []string{wr}, false, ciInstr, isSink, ciInstr)
+			if s1 := sizeCallOf(startVal); s1 != nil {
+				checkBracket(p, r, fn, s1, ciInstr, "SummaryOffset.GroupLength("+op+")", []string{wr}, ciInstr, isSink)
+			} else {
+				r.violated("C05.c", funcName(fn), "SummaryOffset.GroupLength("+op+")", p.pos(ci.Pos()), "start is not a position snapshot")
+			}
+		}
 		if len(order) == 0 {
 			r.violated("C05.b", funcName(fn), "SummaryOffset groups", p.pos(fn.Pos()), "no summary offsets are produced")
 		}
@@ -334,11 +407,17 @@ func checkDifference(p *Program, r *Result, fn *ssa.Function, val, start ssa.Val
 		r.violated("C05.c", fname, what, p.pos(at.Pos()), "the subtracted start is not the recorded start offset")
 		return
 	}
-	s1, s2 := sizeCallOf(b.Y), sizeCallOf(b.X)
+	s1, s2c := sizeCallOf(b.Y), sizeCallOf(b.X)
 	if s1 == nil {
 		r.violated("C05.c", fname, what, p.pos(at.Pos()), "start is not a position snapshot")
 		return
 	}
+	checkBracket(p, r, fn, s1, s2c, what, allowed, at, isSink)
+}
+
+// checkBracket: between the snapshot s1 and the position s2 only the allowed writers touch the sink.
+func checkBracket(p *Program, r *Result, fn *ssa.Function, s1 *ssa.Call, s2 ssa.Instruction, what string, allowed []string, at ssa.Instruction, isSink func(ssa.CallInstruction) (bool, string)) {
+	fname := funcName(fn)
 	// every sink call that lies between s1 and s2 must be an allowed writer
 	bad := ""
 	for _, ci := range callsIn(fn, func(ci ssa.CallInstruction) bool { ok, _ := isSink(ci); return ok }) {
